@@ -1,6 +1,6 @@
 From Coq Require Import Extraction ExtrOcamlBasic.
 From RU Require Import Base.Prelude Base.Utf8 Model.AsciiSet Gen.Tables Model.PercentEncoding
-  Model.HostT Model.UrlRecord Model.Parser Model.Setters Model.WF Model.KnownC01 Model.Host.
+  Model.HostT Model.UrlRecord Model.Parser Model.Setters Model.WF Model.KnownC01 Model.Host Model.FormUrlencoded Model.QueryPairs.
 Extraction Language OCaml.
 Cd "../build/ocaml".
 Extraction "url_model.ml"
@@ -12,5 +12,6 @@ Extraction "url_model.ml"
   q_href q_protocol q_username q_password q_host q_hostname q_port q_pathname q_search q_hash
   q_set_protocol q_set_username q_set_password q_set_host q_set_hostname q_set_port q_set_pathname
   q_set_search q_set_hash strip_trailing_spaces_from_opaque_path wf_b known_c01
-  host_parse host_parse_opaque host_display.
+  host_parse host_parse_opaque host_display
+  query_pairs_session query_pairs.
 Cd "../../coq".
